@@ -387,7 +387,7 @@ def run(tier: str, only=None) -> int:
     # real processes
     if not only or "real" in only:
         cells = []
-        rsizes = (1, 65537) if tier == "quick" else (0, 1, 65537, 4 * 1024 * 1024)
+        rsizes = (1, 65537, (1 << 20) + 1) if tier == "quick" else (0, 1, 65537, (1 << 20) + 1, 4 * 1024 * 1024)
         for prog in PROGRAMS:
             for size in rsizes:
                 if size != rsizes[0] and prog not in ("echo", "types", "remote-callback"):
@@ -395,6 +395,8 @@ def run(tier: str, only=None) -> int:
                 for tr in ("popen", "python", "socket", "via"):
                     for model in ("thread", "main_thread_only") + (("gevent",) if tier == "thorough" else ()):
                         if tier == "quick" and model == "main_thread_only" and size != rsizes[0]:
+                            continue
+                        if tier == "quick" and size > (1 << 20) and prog != "echo":
                             continue
                         cells.append((tr, model, prog, size))
         res = pmap(lambda chunk: [real_cell(c) for c in chunk], [cells[i::16] for i in range(16)])
